@@ -20,6 +20,19 @@ from statham.schema.validation import (
 )
 
 
+def _docstring(text: str) -> str:
+    """Render text as a docstring literal which evaluates to that text."""
+
+    def _escape(char: str) -> str:
+        if char in ("\\", '"'):
+            return "\\" + char
+        if char == "\n" or char.isprintable():
+            return char
+        return char.encode("unicode_escape").decode("ascii")
+
+    return '"""' + "".join(map(_escape, text)) + '"""'
+
+
 RESERVED_PROPERTIES = dir(object) + list(keyword.kwlist) + ["_dict"]
 
 
@@ -179,7 +192,7 @@ class ObjectMeta(type, Element):
         if not cls.description is None and not isinstance(
             cls.description, NotPassed
         ):
-            class_def += f'    """{cls.description}"""\n'
+            class_def += f"    {_docstring(cls.description)}\n"
         if not cls.properties:
             class_def = (
                 class_def
